@@ -138,7 +138,17 @@ def d15():
     return math.isnan(t) or math.isinf(t), f'motor with i0 = 0 at duty cycle 5e-324 (a floating-point neighbour of the dead-zone boundary 0) and 10 rad/s: driving torque {t!r}'
 
 
-TABLE = dict(D15=d15, D1=d1, D2=d2, D3=d3, D4=d4, D7=d7, D8=d8, D9=d9, D10=d10, D11=d11, D13=d13, D14=d14)
+def d5():
+    import oracle_quantity
+    return oracle_quantity.d5_replay()
+
+
+def d6():
+    import oracle_quantity
+    return oracle_quantity.d6_replay()
+
+
+TABLE = dict(D5=d5, D6=d6, D15=d15, D1=d1, D2=d2, D3=d3, D4=d4, D7=d7, D8=d8, D9=d9, D10=d10, D11=d11, D13=d13, D14=d14)
 
 
 def replay(fid):
